@@ -23,6 +23,15 @@ Example src_open_statuses :
 Proof. split; reflexivity. Qed.
 Example src_one_row_per_height : src_certificate_info_pk = ["height"]%string.
 Proof. reflexivity. Qed.
+(* the pending gate of the send loop (the model's step submits on an epoch tick when no certificate is pending, on a status tick
+   when none is pending, a new InError one appeared and RetryCertAfterInError is set): every call of sendCertificate in
+   sendCertificates stands under exactly these tests, and the result they read was obtained from CheckPendingCertificatesStatus
+   in the same iteration *)
+Example src_send_is_gated :
+  src_c02_send_gates = [["!checkResult.ExistPendingCerts && checkResult.ExistNewInErrorCert"; "a.cfg.RetryCertAfterInError"];
+                        ["!checkResult.ExistPendingCerts"]]%string /\
+  src_c02_gate_is_fresh = true.
+Proof. split; reflexivity. Qed.
 
 Section C02.
 Variable hash : Type.                     (* exit roots, leaf hashes *)
